@@ -1,9 +1,22 @@
-"""Prototype agent: audit-hook sched points + virtual time. Throwaway."""
-import os
-import sys
+"""In-process agent of the JADE runtime-monitoring harness.
+
+Loaded through ``sitecustomize`` (first entry of PYTHONPATH) into every Python process of a
+simulation.  It needs no change to /repo: every hook is installed from outside.
+
+* scheduling points: an audit hook turns file mutations / lock operations / directory scans /
+  subprocess spawns under the scenario root into blocking messages to the driver;
+* failpoints: the driver may answer ``die`` (SIGKILL self *here*), ``torn`` (truncate the target of a
+  write-open, then die) or ``raise`` (``OSError(errno)`` propagates out of the audited call);
+* virtual time: ``time.sleep`` is a scheduling point; the clocks are real clock + a driver-owned offset;
+* virtual hosts: ``socket.gethostname`` returns ``VSIM_HOST``.
+
+The process is single-threaded on every path that matters and the agent state is process local.
+"""
 import json
+import os
 import socket
-import subprocess  # import before patching time so it keeps real monotonic
+import subprocess  # imported before time is patched: its private timeout clock stays real
+import sys
 import time as _time
 
 _real_sleep = _time.sleep
@@ -11,27 +24,46 @@ _real_time = _time.time
 _real_perf = _time.perf_counter
 _real_mono = _time.monotonic
 
-_state = {"active": False, "sock": None, "off": 0.0, "busy": False, "root": None, "pid": None}
+_state = {"active": False, "sock": None, "off": 0.0, "busy": False, "root": None, "pid": None, "n": 0}
 
-_EVENTS = {
-    "open", "os.remove", "os.rename", "os.mkdir", "os.rmdir", "subprocess.Popen",
-    "os.listdir", "os.scandir", "glob.glob", "os.chmod", "os.truncate", "shutil.copyfile",
-}
+_EVENTS = frozenset(
+    (
+        "open",
+        "os.remove",
+        "os.rename",
+        "os.mkdir",
+        "os.rmdir",
+        "subprocess.Popen",
+        "os.listdir",
+        "os.scandir",
+        "glob.glob",
+        "os.chmod",
+        "os.truncate",
+        "shutil.copyfile",
+        "shutil.move",
+        "shutil.rmtree",
+    )
+)
 
 
 def _send(msg):
     _state["sock"].send(json.dumps(msg).encode())
 
 
+def _mine():
+    return _state["active"] and not _state["busy"] and os.getpid() == _state["pid"]
+
+
 def _sched(kind, **info):
-    """Blocking sched point."""
-    if not _state["active"] or _state["busy"] or os.getpid() != _state["pid"]:
+    """Blocking scheduling point: tell the driver what is about to happen, wait for its verdict."""
+    if not _mine():
         return None
     _state["busy"] = True
     try:
         info["k"] = kind
+        _state["n"] += 1
         _send(info)
-        data = _state["sock"].recv(65536)
+        data = _state["sock"].recv(1 << 16)
         if not data:
             os._exit(111)
         rep = json.loads(data)
@@ -39,13 +71,22 @@ def _sched(kind, **info):
         act = rep.get("a")
         if act == "die":
             os.kill(os.getpid(), 9)
+            _real_sleep(60)
+        elif act == "torn":
+            try:
+                fd = os.open(info["p"], os.O_WRONLY | os.O_CREAT | os.O_TRUNC, 0o644)
+                os.close(fd)
+            except OSError:
+                pass
+            os.kill(os.getpid(), 9)
+            _real_sleep(60)
         return rep
     finally:
         _state["busy"] = False
 
 
 def _notify(kind, **info):
-    if not _state["active"] or _state["busy"] or os.getpid() != _state["pid"]:
+    if not _mine():
         return
     info["k"] = kind
     info["nb"] = 1
@@ -56,31 +97,39 @@ def _notify(kind, **info):
         _state["busy"] = False
 
 
-def _in_scope(p):
+def _scope(p):
+    """Return the normalised absolute path if p is under the scenario root, else None."""
     if isinstance(p, int):
-        return False
+        return None
     try:
         p = os.fspath(p)
     except TypeError:
-        return False
+        return None
     if isinstance(p, bytes):
         p = p.decode("utf-8", "replace")
-    root = _state["root"]
-    ap = p if p.startswith("/") else os.path.join(os.getcwd(), p)
-    ap = os.path.normpath(ap)
-    return ap.startswith(root), ap
+    if not p.startswith("/"):
+        try:
+            p = os.path.join(os.getcwd(), p)
+        except OSError:
+            return None
+    p = os.path.normpath(p)
+    return p if p.startswith(_state["root"]) else None
 
 
 def _hook(ev, args):
-    if not _state["active"] or _state["busy"] or ev not in _EVENTS:
+    if ev not in _EVENTS or not _state["active"] or _state["busy"]:
         return
     if ev == "subprocess.Popen":
-        rep = _sched("popen", argv=[str(x) for x in args[1]])
+        try:
+            argv = [str(x) for x in args[1]]
+        except TypeError:
+            argv = [str(args[1])]
+        _sched("popen", argv=argv)
         return
-    r = _in_scope(args[0])
-    if not r or not r[0]:
+    ap = _scope(args[0])
+    if ap is None:
         return
-    info = {"ev": ev, "p": r[1]}
+    info = {"ev": ev, "p": ap}
     if ev == "open":
         info["m"] = args[1]
         info["f"] = args[2]
@@ -88,17 +137,24 @@ def _hook(ev, args):
         info["p2"] = str(args[1])
     rep = _sched("io", **info)
     if rep and rep.get("a") == "raise":
-        raise OSError(rep["errno"], os.strerror(rep["errno"]), r[1])
+        e = rep["errno"]
+        raise OSError(e, os.strerror(e), ap)
 
 
 def _sleep(d):
-    if _state["active"] and not _state["busy"] and os.getpid() == _state["pid"]:
+    if _mine():
         _sched("sleep", d=d)
     else:
         _real_sleep(d)
 
 
+def call_event(kind, **info):
+    """For component actors (C08/C10): record a call/return event at the actor's boundary."""
+    return _sched(kind, **info)
+
+
 def install():
+    """Patch the process; inert until activate()."""
     _time.sleep = _sleep
     _time.time = lambda: _real_time() + _state["off"]
     _time.perf_counter = lambda: _real_perf() + _state["off"]
@@ -147,12 +203,23 @@ def install():
 
 
 def activate(role=None, extra=None):
+    """Connect to the driver and say hello (first scheduling point of this process)."""
     path = os.environ["VSIM_SOCK"]
     s = socket.socket(socket.AF_UNIX, socket.SOCK_SEQPACKET)
     s.connect(path)
     _state["sock"] = s
     _state["root"] = os.environ["VSIM_ROOT"]
     _state["pid"] = os.getpid()
+    host = os.environ.get("VSIM_HOST")
+    if host:
+        socket.gethostname = lambda: host
+    if os.environ.get("VSIM_FILELOCK") == "legacy":
+        try:
+            import filelock._soft as _fs
+
+            _fs.SoftFileLock._try_break_stale_lock = lambda self: None
+        except Exception:
+            pass
     _state["active"] = True
     hello = {
         "pid": os.getpid(),
@@ -160,11 +227,9 @@ def activate(role=None, extra=None):
         "role": role or os.environ.get("VSIM_ROLE", "py"),
         "argv": sys.argv,
         "node": os.environ.get("VSIM_NODE"),
-        "host": os.environ.get("VSIM_HOST"),
+        "host": host,
+        "tag": os.environ.get("VSIM_TAG"),
     }
     if extra:
         hello.update(extra)
     _sched("hello", **hello)
-    host = os.environ.get("VSIM_HOST")
-    if host:
-        socket.gethostname = lambda: host
